@@ -285,8 +285,10 @@ PROPS["C02"] = {
 PROPS["C18"] = {
     "pkg": "c18", "level": "exploration",
     "rule": ("parked_dispatch: rapid draws a small real table (0-3 blacklist entries, rewriters, aggregations; 2-5 routes: capture or real sendAllMatch / "
-             "sendFirstMatch with 1-4 real destinations), a park point (after the table's snapshot load; inside capture route i; after carbon route "
-             "r's snapshot load) and ONE admin operation (add/delete route, blacklist entry, rewriter, aggregation, destination; modRoute; modDest). "
+             "sendFirstMatch with 1-4 real destinations or consistentHashing with 1-7 (expected owner: carbon's ring over the destinations of the "
+             "state in question), a park point (after the table's snapshot load; inside capture route i; after carbon route "
+             "r's snapshot load) and 1-3 admin operations (add/delete route, blacklist entry, rewriter, aggregation, destination; modRoute; modDest; "
+             "when parked inside a carbon route, half of them work on that very route). A panic of the parked dispatcher is a violation. "
              "A dispatcher is started and parked at the point (verif-tagged after-load callbacks), the operation runs to completion in its own "
              "goroutine, the dispatcher resumes. Oracle: the parked metric's deliveries (capture routes, per-destination counters incl. drained "
              "deleted destinations, aggregation in-counters, blacklist/unroutable counters) equal the reference outcome under the table BEFORE or "
@@ -357,7 +359,8 @@ PROPS["C05"] = {
 PROPS["C06"] = {
     "pkg": "c06", "level": "exploration",
     "rule": ("rapid draws an endpoint behaviour (absent = refusing port; black hole = accepts, then never reads, 16 KiB receive buffer; throttled = reads 4-64 KiB "
-             "per ms; healthy; closing = closes every connection after 1..200000 bytes), a route type (sendAllMatch / sendFirstMatch / consistentHashing), "
+             "per ms; healthy; closing = closes every connection after 1..1000000 bytes), a route type (sendAllMatch / sendFirstMatch / consistentHashing), "
+             "spooling on or off (with spooling on an absent endpoint is checked for boundedness only: what happens to the lines is C07), "
              "connbuf 0..1000, iobuf 16..65536, flush 1-100 ms, and 1-8 MB of traffic in lines of 30-200 bytes dispatched through a real table that "
              "also holds a healthy sibling capture route. Oracle: (a) boundedness - the dispatcher goroutine is watched; no hand-off may take longer "
              "than 2 s (typical: microseconds); a hit is re-run once and only a repeat is reported; the sibling route receives every metric; (b) "
@@ -370,8 +373,8 @@ PROPS["C06"] = {
     "level_note": "A wall-clock bound is an inherently fragile oracle: it is three orders of magnitude above normal and only a repeated hit is reported. Receive buffers are set on the listening socket (shrinking an established connection's buffer makes the kernel drop in-flight data).",
     "technique": "property-based testing (rapid) with fault injection at the endpoint: latency-bound watchdog + accounting identities",
     "assumptions": ["loopback TCP", "the scheduler gives the dispatcher goroutine CPU time within the bound"],
-    "quick": [R("TestPropBadEndpoint", 45)],
-    "thorough": [R("TestPropBadEndpoint", 120, shards=12, timeout=3000)],
+    "quick": [R("TestPropBadEndpoint", 90)],
+    "thorough": [R("TestPropBadEndpoint", 150, shards=8, timeout=3000)],
 }
 
 PROPS["C07"] = {
